@@ -54,6 +54,42 @@ pub fn run(ctx: &Ctx) -> Report {
     let n_big = big.len() as u64;
     let mut acc2 = sweep(cases.into_par_iter(), judge);
     acc2.nontrivial += n_big;
+    // MESSAGE-INTEGRITY-SHA256 truncated to every admissible length (16, 20, 24, 28, 32), alone / behind
+    // other attributes / behind MESSAGE-INTEGRITY, followed by nothing / FINGERPRINT / a comprehension-
+    // optional attribute, every cut point
+    {
+        let mut trunc: Vec<Vec<u8>> = Vec::new();
+        for n in [16usize, 20, 24, 28, 32] {
+            for pre in 0..3u8 {
+                for tail in 0..3u8 {
+                    let mut b = wire::encode_header((n % 4) as u8 % 4, 1, 0x4142_4344_4546_4748_494A_4B4C, 0);
+                    if pre >= 1 {
+                        wire::append_raw(&mut b, 0x0006, b"user");
+                    }
+                    if pre == 2 {
+                        wire::append_mi(&mut b, engine_in::KEY);
+                    }
+                    wire::append_mi256(&mut b, engine_in::KEY, n);
+                    match tail {
+                        1 => wire::append_fp(&mut b),
+                        2 => {
+                            wire::append_raw(&mut b, 0x8022, b"after");
+                            wire::append_fp(&mut b);
+                        }
+                        _ => {}
+                    }
+                    if wire::decode(&b).is_ok() {
+                        trunc.push(b);
+                    }
+                }
+            }
+        }
+        let cases: Vec<Case> = trunc.iter().flat_map(|b| (0..b.len()).map(move |k| Case::new("prefix", b.clone()).args(&[k as i64]))).collect();
+        let n = trunc.len() as u64;
+        let mut a = sweep(cases.into_par_iter(), judge);
+        a.nontrivial += n;
+        acc2 = acc2.merge(a);
+    }
     // messages that carry a message (a relayed STUN message in a DATA-like attribute, with and
     // without integrity / FINGERPRINT) or values that read as a sealing attribute / STUN header:
     // a prefix may end exactly on an embedded FINGERPRINT, inside an embedded MESSAGE-INTEGRITY ...
@@ -263,7 +299,7 @@ pub fn run(ctx: &Ctx) -> Report {
     Report {
         acc,
         exhaustive: true,
-        rule: "every declared length (every multiple of 4 in 0..=65 532) under two attribute layouts (value-less attributes: an attribute ends at every multiple of 4; an address attribute + one DATA attribute), cut at every point below 1100, at 20 + the byte-swapped / halved / single-bit-flipped / high-byte / low-byte length and in the last 8 bytes; every well-formed message of the skeleton space (x4 header variants, one per class), all 16 384 (class, method) pairs x five small bodies (unaligned / empty / aligned last attribute, FINGERPRINT), messages of 1..=70 / 100 / 129 / 257 / 1025 attributes, 144 messages carrying a relayed STUN message or a value that reads as a sealing attribute at four alignments, and 10 builder-made messages with attribute lengths up to 763 x every cut point 0..len; 5 messages of 4 KiB .. 65 552 bytes x cut points {0..=300, last 300, powers of two +-1, every 251st}; header decoder on all 65536 type fields x 7 length fields x cookie ok/off, all 65536 length fields x 3 types, every cookie bit, walking-one / walking-zero / byte-lane transaction ids; distinct_nontrivial counts the well-formed messages".into(),
+        rule: "messages with a MESSAGE-INTEGRITY-SHA256 of 16 / 20 / 24 / 28 / 32 bytes in three positions x three tails at every cut; every declared length (every multiple of 4 in 0..=65 532) under two attribute layouts (value-less attributes: an attribute ends at every multiple of 4; an address attribute + one DATA attribute), cut at every point below 1100, at 20 + the byte-swapped / halved / single-bit-flipped / high-byte / low-byte length and in the last 8 bytes; every well-formed message of the skeleton space (x4 header variants, one per class), all 16 384 (class, method) pairs x five small bodies (unaligned / empty / aligned last attribute, FINGERPRINT), messages of 1..=70 / 100 / 129 / 257 / 1025 attributes, 144 messages carrying a relayed STUN message or a value that reads as a sealing attribute at four alignments, and 10 builder-made messages with attribute lengths up to 763 x every cut point 0..len; 5 messages of 4 KiB .. 65 552 bytes x cut points {0..=300, last 300, powers of two +-1, every 251st}; header decoder on all 65536 type fields x 7 length fields x cookie ok/off, all 65536 length fields x 3 types, every cookie bit, walking-one / walking-zero / byte-lane transaction ids; distinct_nontrivial counts the well-formed messages".into(),
         bounds: json!({"skeletons": sk.len(), "cut_points": "all", "header_space": 65536 * 14}),
         assumptions: vec![],
         ..Default::default()
